@@ -125,10 +125,25 @@ fn gen_element(rng: &mut Rng, depth: usize, out: &mut String) {
 pub fn real_svg_doc(rng: &mut Rng) -> String {
     let mut s = String::new();
     if rng.chance(1, 3) { s.push_str("<?xml version=\"1.0\" encoding=\"UTF-8\"?>\n"); }
-    if rng.chance(1, 4) { s.push_str(&format!("<!--{}-->\n", comment_text(rng))); }
-    if rng.chance(1, 5) { s.push_str("<!DOCTYPE svg PUBLIC \"-//W3C//DTD SVG 1.1//EN\" \"http://www.w3.org/Graphics/SVG/1.1/DTD/svg11.dtd\">\n"); }
+    // the prolog: comments, processing instructions and one DOCTYPE, in any order
+    let mut doctype_done = false;
+    for _ in 0..rng.below(4) {
+        match rng.below(4) {
+            0 => s.push_str(&format!("<!--{}-->\n", comment_text(rng))),
+            1 | 2 => s.push_str(&format!("<?{} {}?>{}", rng.pick(&["xml-stylesheet", "pi", "x"]), hostile(rng, 3).replace("?>", "? >"), rng.pick(&["\n", "", "\n\n"]))),
+            _ if !doctype_done => { doctype_done = true; s.push_str("<!DOCTYPE svg PUBLIC \"-//W3C//DTD SVG 1.1//EN\" \"http://www.w3.org/Graphics/SVG/1.1/DTD/svg11.dtd\">\n") }
+            _ => {}
+        }
+    }
     s.push_str(&real_svg_subtree(rng));
-    if rng.chance(1, 3) { s.push('\n'); }
+    // after the root: white space, comments, processing instructions
+    for _ in 0..rng.below(3) {
+        match rng.below(3) {
+            0 => s.push('\n'),
+            1 => s.push_str(&format!("<!--{}-->", comment_text(rng))),
+            _ => s.push_str(&format!("<?{} {}?>", rng.pick(&["pi", "x"]), hostile(rng, 2).replace("?>", "? >"))),
+        }
+    }
     s
 }
 
@@ -184,6 +199,17 @@ pub fn svgdx_doc(rng: &mut Rng, with_root: bool) -> String {
         let mut root = String::from("<svg");
         if rng.chance(1, 4) { root.push(' '); root.push_str(&in_attr(rng, "width", "50mm")); }
         if rng.chance(1, 5) { root.push(' '); root.push_str(&hattr(rng, "data-r", 3)); }
+        // what authors put on a root besides geometry: prefixed namespace declarations (needed for
+        // xlink:href), a version, presentation attributes, an id, classes
+        if rng.chance(1, 4) { root.push(' '); root.push_str(&in_attr(rng, "xmlns:xlink", "http://www.w3.org/1999/xlink")); }
+        if rng.chance(1, 10) { root.push(' '); root.push_str(&in_attr(rng, "xmlns:x", "http://example.com/x")); }
+        if rng.chance(1, 8) { let v = *rng.pick(&["1.1", "1.2", "2"]); root.push(' '); root.push_str(&in_attr(rng, "version", v)); }
+        if rng.chance(1, 8) { root.push(' '); root.push_str(&in_attr(rng, "height", "30mm")); }
+        if rng.chance(1, 8) { root.push(' '); root.push_str(&in_attr(rng, "viewBox", "-5 -5 120 60")); }
+        if rng.chance(1, 8) { root.push(' '); root.push_str(&in_attr(rng, "id", "root")); }
+        if rng.chance(1, 8) { root.push(' '); root.push_str(&in_attr(rng, "class", "doc  d-red")); }
+        if rng.chance(1, 8) { root.push(' '); root.push_str(&hattr(rng, "style", 3)); }
+        if rng.chance(1, 10) { root.push(' '); root.push_str(&in_attr(rng, "xml:space", "preserve")); }
         format!("{root}>\n{body}</svg>")
     } else {
         body
